@@ -12,6 +12,7 @@ mod helpers {
     use ::core::hash::{Hash, Hasher};
     pub trait Tr<T: ?Sized = ()> {}
     impl<A: ?Sized, B: ?Sized> Tr<B> for A {}
+    pub trait Src { type Item; }
     pub fn fe<T: PartialEq + ?Sized>(a: &T, b: &T) -> bool { a == b }
     pub fn fo<T: Ord + ?Sized>(a: &T, b: &T) -> Ordering { a.cmp(b) }
     pub fn fp<T: PartialOrd + ?Sized>(a: &T, b: &T) -> Option<Ordering> { a.partial_cmp(b) }
@@ -46,7 +47,7 @@ def gen_item(rng, names=None, want_enum=None, allow_attrs=True, plain=False, abs
     n = names or Names()
     is_enum = rng.random() < 0.45 if want_enum is None else want_enum
     # ---- generics
-    gkind = rng.choice(gkinds or ['none', 'none', 'T', 'T', 'TU', 'ltT', 'TN', 'Tdef', 'Tbound', 'Tself'])
+    gkind = rng.choice(gkinds or ['none', 'none', 'T', 'T', 'TU', 'ltT', 'TN', 'Tdef', 'Tbound', 'Tself', 'Tsrc'])
     has_T = gkind != 'none'
     has_U = gkind == 'TU'
     has_lt = gkind == 'ltT'
@@ -61,6 +62,8 @@ def gen_item(rng, names=None, want_enum=None, allow_attrs=True, plain=False, abs
             params.append(f'{n.T}: helpers::Tr')
         elif gkind == 'Tself':
             params.append(f'{n.T}: helpers::Tr<Self>')
+        elif gkind == 'Tsrc':
+            params.append(f'{n.T}: helpers::Src')
         else:
             params.append(n.T)
     if has_U:
@@ -133,6 +136,9 @@ def gen_item(rng, names=None, want_enum=None, allow_attrs=True, plain=False, abs
                 c += [f'{VEC}<{T}>', f'{BOX}<{T}>']
         if has_U:
             c += [U, f'({T}, {U})']
+        if gkind == 'Tsrc':
+            # shorthand and fully qualified projections: the field type mentions the parameter only through a path
+            c += [f'{T}::Item', f'{T}::Item', f'{OPT}<{T}::Item>', f'<{T} as helpers::Src>::Item', f'({T}::Item, i8)']
         if has_N and not dflt:
             c += [f'[{T}; {N}]', f'[i8; {N}]']
         if has_lt and not dflt:
@@ -294,7 +300,7 @@ def gen_c13_case(seed, idx):
         if cn in tp or cn == ty:
             continue
         names = Names(ty=ty, T=tp[0], U=tp[1], N=cn, lt=rng.choice(HOSTILE_LIFETIMES), fields=fields, variants=variants)
-        it = gen_item(rng, names=names, absolute=True, gkinds=['none', 'T', 'TU', 'ltT', 'ltT', 'TN', 'TN', 'TN', 'Tdef', 'Tbound', 'Tself'])
+        it = gen_item(rng, names=names, absolute=True, gkinds=['none', 'T', 'TU', 'ltT', 'ltT', 'TN', 'TN', 'TN', 'Tdef', 'Tbound', 'Tself', 'Tsrc'])
         src = it['src']
         if not it['params_all_used']:
             continue
@@ -501,3 +507,653 @@ def gen_c12_program(seed, start, count):
             i += 1
     src = C12_PRELUDE + ''.join(c['src'] for c in cases) + 'fn main() { ' + ' '.join(f"{c['mod']}::run();" for c in cases) + ' }\n'
     return src, cases
+
+
+# ---------------------------------------------------------------- C08: operators from a struct
+OPS = [('Add', 'add', '+'), ('BitAnd', 'bitand', '&'), ('BitOr', 'bitor', '|'), ('BitXor', 'bitxor', '^'), ('Div', 'div', '/'),
+       ('Mul', 'mul', '*'), ('Rem', 'rem', '%'), ('Shl', 'shl', '<<'), ('Shr', 'shr', '>>'), ('Sub', 'sub', '-')]
+
+
+def c08_prelude():
+    """`M`: a free-monoid value that records, for every operator call, the operator, the operand order and the
+    reference form of each operand, plus a global call log."""
+    s = '''#![allow(dead_code, unused_imports, unused_variables, unused_mut, non_snake_case)]
+use derive_ex::{derive_ex, Ex};
+use std::cell::RefCell;
+thread_local! { static LOG: RefCell<Vec<String>> = RefCell::new(Vec::new()); }
+pub fn log(s: String) { LOG.with(|l| l.borrow_mut().push(s)); }
+pub fn take() -> Vec<String> { LOG.with(|l| std::mem::take(&mut *l.borrow_mut())) }
+#[derive(Debug, Clone, PartialEq)]
+pub struct M(pub String);
+'''
+    for tr, f, sym in OPS:
+        s += f'''impl std::ops::{tr}<M> for M {{ type Output = M; fn {f}(self, r: M) -> M {{ log(format!("{f} oo {{}} {{}}", self.0, r.0)); M(format!("({{}}{sym}{{}})oo", self.0, r.0)) }} }}
+impl<'a> std::ops::{tr}<&'a M> for M {{ type Output = M; fn {f}(self, r: &M) -> M {{ log(format!("{f} or {{}} {{}}", self.0, r.0)); M(format!("({{}}{sym}{{}})or", self.0, r.0)) }} }}
+impl<'a> std::ops::{tr}<M> for &'a M {{ type Output = M; fn {f}(self, r: M) -> M {{ log(format!("{f} ro {{}} {{}}", self.0, r.0)); M(format!("({{}}{sym}{{}})ro", self.0, r.0)) }} }}
+impl<'a, 'b> std::ops::{tr}<&'b M> for &'a M {{ type Output = M; fn {f}(self, r: &M) -> M {{ log(format!("{f} rr {{}} {{}}", self.0, r.0)); M(format!("({{}}{sym}{{}})rr", self.0, r.0)) }} }}
+impl std::ops::{tr}Assign<M> for M {{ fn {f}_assign(&mut self, r: M) {{ log(format!("{f}_assign o {{}} {{}}", self.0, r.0)); self.0 = format!("({{}}{sym}={{}})o", self.0, r.0) }} }}
+impl<'a> std::ops::{tr}Assign<&'a M> for M {{ fn {f}_assign(&mut self, r: &M) {{ log(format!("{f}_assign r {{}} {{}}", self.0, r.0)); self.0 = format!("({{}}{sym}={{}})r", self.0, r.0) }} }}
+'''
+    s += '''impl std::ops::Neg for M { type Output = M; fn neg(self) -> M { log(format!("neg o {}", self.0)); M(format!("-o{}", self.0)) } }
+impl<'a> std::ops::Neg for &'a M { type Output = M; fn neg(self) -> M { log(format!("neg r {}", self.0)); M(format!("-r{}", self.0)) } }
+impl std::ops::Not for M { type Output = M; fn not(self) -> M { log(format!("not o {}", self.0)); M(format!("!o{}", self.0)) } }
+impl<'a> std::ops::Not for &'a M { type Output = M; fn not(self) -> M { log(format!("not r {}", self.0)); M(format!("!r{}", self.0)) } }
+'''
+    return s
+
+
+def gen_c08_program(seed, start, count):
+    rng = random.Random(seed * 5000011 + start)
+    src = c08_prelude()
+    cases = []
+    for idx in range(start, start + count):
+        mod = f'c{idx}'
+        kind = rng.choice(['unit', 'tuple', 'tuple', 'named', 'named'])
+        nf = 0 if kind == 'unit' else rng.choice([0, 1, 2, 3, 4])
+        generic = rng.random() < 0.35
+        fnames = ['a', 'b', 'c', 'd'][:nf]
+        ftys = [rng.choice(['T', 'M']) if generic else 'M' for _ in range(nf)]
+        if generic and 'T' not in ftys:
+            generic = False
+        g = '<T>' if generic else ''
+        gi = '<M>' if generic else ''
+        if kind == 'named':
+            decl = f'pub struct X{g} {{ ' + ', '.join(f'pub {n}: {t}' for n, t in zip(fnames, ftys)) + ' }'
+        elif kind == 'tuple':
+            decl = f'pub struct X{g}(' + ', '.join('pub ' + t for t in ftys) + ');'
+        else:
+            decl = f'pub struct X{g};'
+        k = rng.choice([1, 2, 3])
+        ops = rng.sample(OPS, k)
+        traits = []
+        for tr, f, sym in ops:
+            traits.append(tr)
+            if rng.random() < 0.6:
+                traits.append(tr + 'Assign')
+        un = []
+        if rng.random() < 0.5:
+            un = rng.sample([('Neg', 'neg'), ('Not', 'not')], rng.choice([1, 2]))
+            traits += [u for u, _ in un]
+        entry = rng.choice(['attr', 'derive'])
+        tl = ', '.join(traits)
+        head = f'#[derive_ex({tl})]' if entry == 'attr' else f'#[derive(Ex)] #[derive_ex({tl})]'
+
+        def mk(tag):
+            vals = [f'M(String::from("{tag}{i}"))' for i in range(nf)]
+            if kind == 'named':
+                return 'X { ' + ', '.join(f'{n}: {v}' for n, v in zip(fnames, vals)) + ' }'
+            if kind == 'tuple':
+                return 'X(' + ', '.join(vals) + ')'
+            return 'X'
+
+        def fld(v, i):
+            return f'{v}.{fnames[i]}' if kind == 'named' else f'{v}.{i}'
+        body = f'pub mod {mod} {{ use super::*;\n #[derive(Debug, Clone, PartialEq)] {head} {decl}\n pub fn run() {{ let mut n = 0u32;\n'
+        for tr, f, sym in ops:
+            for l, r, form in ((False, False, 'oo'), (False, True, 'or'), (True, False, 'ro'), (True, True, 'rr')):
+                le = '&x' if l else 'x.clone()'
+                re = '&y' if r else 'y.clone()'
+                exp_fields = [f'M(format!("({{}}{sym}{{}}){form}", {fld("x", i)}.0, {fld("y", i)}.0))' for i in range(nf)]
+                exp_log = [f'format!("{f} {form} {{}} {{}}", {fld("x", i)}.0, {fld("y", i)}.0)' for i in range(nf)]
+                if kind == 'named':
+                    exp = 'X { ' + ', '.join(f'{n}: {e}' for n, e in zip(fnames, exp_fields)) + ' }'
+                elif kind == 'tuple':
+                    exp = 'X(' + ', '.join(exp_fields) + ')'
+                else:
+                    exp = 'X'
+                body += f'  {{ let x: X{gi} = {mk("l")}; let y: X{gi} = {mk("r")}; let x0 = x.clone(); let y0 = y.clone(); take(); let z = {le} {sym} {re}; let lg = take(); n += 1;\n'
+                body += f'    let want: X{gi} = {exp}; let wl: Vec<String> = vec![{", ".join(exp_log)}];\n'
+                body += f'    if z != want {{ println!("{mod} FAIL {tr} {form} value {{:?}} want {{:?}}", z, want); }} if lg != wl {{ println!("{mod} FAIL {tr} {form} calls {{:?}} want {{:?}}", lg, wl); }}\n'
+                if l:
+                    body += f'    if x != x0 {{ println!("{mod} FAIL {tr} {form} borrowed lhs changed"); }}\n'
+                if r:
+                    body += f'    if y != y0 {{ println!("{mod} FAIL {tr} {form} borrowed rhs changed"); }}\n'
+                body += '  }\n'
+            if tr + 'Assign' in traits:
+                for r, form in ((False, 'o'), (True, 'r')):
+                    re = '&y' if r else 'y.clone()'
+                    exp_fields = [f'M(format!("({{}}{sym}={{}}){form}", {fld("x0", i)}.0, {fld("y", i)}.0))' for i in range(nf)]
+                    exp_log = [f'format!("{f}_assign {form} {{}} {{}}", {fld("x0", i)}.0, {fld("y", i)}.0)' for i in range(nf)]
+                    if kind == 'named':
+                        exp = 'X { ' + ', '.join(f'{n}: {e}' for n, e in zip(fnames, exp_fields)) + ' }'
+                    elif kind == 'tuple':
+                        exp = 'X(' + ', '.join(exp_fields) + ')'
+                    else:
+                        exp = 'X'
+                    body += f'  {{ let mut x: X{gi} = {mk("l")}; let y: X{gi} = {mk("r")}; let x0 = x.clone(); let y0 = y.clone(); take(); x {sym}= {re}; let lg = take(); n += 1;\n'
+                    body += f'    let want: X{gi} = {exp}; let wl: Vec<String> = vec![{", ".join(exp_log)}];\n'
+                    body += f'    if x != want {{ println!("{mod} FAIL {tr}Assign {form} value {{:?}} want {{:?}}", x, want); }} if lg != wl {{ println!("{mod} FAIL {tr}Assign {form} calls {{:?}} want {{:?}}", lg, wl); }}\n'
+                    if r:
+                        body += f'    if y != y0 {{ println!("{mod} FAIL {tr}Assign {form} borrowed rhs changed"); }}\n'
+                    body += '  }\n'
+        for u, uf in un:
+            usym = '-' if u == 'Neg' else '!'
+            for l, form in ((False, 'o'), (True, 'r')):
+                le = '&x' if l else 'x.clone()'
+                exp_fields = [f'M(format!("{usym}{form}{{}}", {fld("x", i)}.0))' for i in range(nf)]
+                exp_log = [f'format!("{uf} {form} {{}}", {fld("x", i)}.0)' for i in range(nf)]
+                if kind == 'named':
+                    exp = 'X { ' + ', '.join(f'{n}: {e}' for n, e in zip(fnames, exp_fields)) + ' }'
+                elif kind == 'tuple':
+                    exp = 'X(' + ', '.join(exp_fields) + ')'
+                else:
+                    exp = 'X'
+                body += f'  {{ let x: X{gi} = {mk("l")}; let x0 = x.clone(); take(); let z = {usym}{le}; let lg = take(); n += 1;\n'
+                body += f'    let want: X{gi} = {exp}; let wl: Vec<String> = vec![{", ".join(exp_log)}];\n'
+                body += f'    if z != want {{ println!("{mod} FAIL {u} {form} value {{:?}} want {{:?}}", z, want); }} if lg != wl {{ println!("{mod} FAIL {u} {form} calls {{:?}} want {{:?}}", lg, wl); }}\n'
+                body += '  }\n'
+        body += f'  println!("{mod} ok {{}}", n); }}\n}}\n'
+        src += body
+        cases.append(dict(mod=mod, item=f'{head} {decl}', traits=traits, shape=f'{kind}{nf}', raw=False))
+    src += 'fn main() { ' + ' '.join(f"{c['mod']}::run();" for c in cases) + ' }\n'
+    return src, cases
+
+
+# ---------------------------------------------------------------- C09: operators forwarded to a user impl
+C09_PRELUDE = '''#![allow(dead_code, unused_imports, unused_variables, unused_mut, non_snake_case)]
+use derive_ex::{derive_ex, Ex};
+use std::cell::RefCell;
+thread_local! { static LOG: RefCell<Vec<String>> = RefCell::new(Vec::new()); }
+pub fn log(s: String) { LOG.with(|l| l.borrow_mut().push(s)); }
+pub fn take() -> Vec<String> { LOG.with(|l| std::mem::take(&mut *l.borrow_mut())) }
+'''
+
+
+def gen_c09_program(seed, start, count):
+    """user impls of a non-commutative operator in each base form; every generated form is compared with the
+    documented forwarding: same operands, same order, one call, clones exactly where a reference must become a value"""
+    rng = random.Random(seed * 3000017 + start)
+    src = C09_PRELUDE
+    cases = []
+    for idx in range(start, start + count):
+        mod = f'c{idx}'
+        tr, f, sym = rng.choice(OPS)
+        base_assign = rng.random() < 0.2
+        generic = rng.random() < 0.3
+        rhs_self = rng.random() < 0.5
+        bl = rng.random() < 0.5      # base takes &A
+        br = rng.random() < 0.5      # base takes &Rhs
+        g = '<T: Clone + std::fmt::Debug>' if generic else ''
+        gu = '<T>' if generic else ''
+        gi = '<u8>' if generic else ''
+        A = f'A{gu}'
+        B = A if rhs_self else 'B'
+        adef = f'#[derive(Debug, PartialEq)] pub struct A{gu}(pub String{", pub std::marker::PhantomData<T>" if generic else ""});\n'
+        ctorA = (lambda s: f'A(String::from("{s}"), std::marker::PhantomData)') if generic else (lambda s: f'A(String::from("{s}"))')
+        aclone = f'impl{g} Clone for {A} {{ fn clone(&self) -> Self {{ log(format!("cloneA {{}}", self.0)); A(format!("c{{}}", self.0){", std::marker::PhantomData" if generic else ""}) }} }}\n'
+        bdef = '' if rhs_self else '#[derive(Debug, PartialEq)] pub struct B(pub String);\nimpl Clone for B { fn clone(&self) -> Self { log(format!("cloneB {}", self.0)); B(format!("c{}", self.0)) } }\n'
+        ctorB = ctorA if rhs_self else (lambda s: f'B(String::from("{s}"))')
+        Ai, Bi = f'A{gi}', (f'A{gi}' if rhs_self else 'B')
+        if base_assign:
+            req = ['Op']
+            lty = A
+            rty = ('&' if br else '') + B
+            base = f'#[derive_ex({tr})]\nimpl{g} std::ops::{tr}Assign<{rty}> for {lty} {{ fn {f}_assign(&mut self, rhs: {rty}) {{ log(format!("base_assign {{}} {{}}", self.0, rhs.0)); self.0 = format!("[{{}}{sym}={{}}]", self.0, rhs.0); }} }}\n'
+        else:
+            req = rng.choice([['Op'], ['Op'], ['OpAssign'], ['Op', 'OpAssign'], ['Op', 'OpAssign'], ['OpAssign', 'Op']])
+            names = [tr if r == 'Op' else tr + 'Assign' for r in req]
+            lty = ('&' if bl else '') + A
+            rty = ('&' if br else '') + B
+            rarg = '' if (rhs_self and not br and not bl and rng.random() < 0.5) else f'<{rty}>'
+            ctor_out = 'A(format!("[{}%s{}]", self.0, rhs.0)%s)' % (sym, ', std::marker::PhantomData' if generic else '')
+            base = f'#[derive_ex({", ".join(names)})]\nimpl{g} std::ops::{tr}{rarg} for {lty} {{ type Output = {A}; fn {f}(self, rhs: {rty}) -> {A} {{ log(format!("base {{}} {{}}", self.0, rhs.0)); {ctor_out} }} }}\n'
+        body = f'pub mod {mod} {{ use super::*;\n{adef}{aclone}{bdef}{base} pub fn run() {{ let mut n = 0u32;\n'
+
+        def check(expr_setup, expr, want_val, want_log, what, post=''):
+            return (f'  {{ {expr_setup} take(); let z = {expr}; let lg = take(); n += 1; let want = String::from("{want_val}"); let wl: Vec<String> = vec![{", ".join(chr(34) + w + chr(34) + ".to_string()" for w in want_log)}];\n'
+                    f'    if z.0 != want {{ println!("{mod} FAIL {what} value {{:?}} want {{:?}}", z.0, want); }} if lg != wl {{ println!("{mod} FAIL {what} calls {{:?}} want {{:?}}", lg, wl); }} {post} }}\n')
+        setup = f'let a: {Ai} = {ctorA("a")}; let b: {Bi} = {ctorB("b")};'
+        cb = 'cloneA' if rhs_self else 'cloneB'
+        if base_assign:
+            # Op from OpAssign: { a op= b; a }
+            re = '&b' if br else 'b'
+            body += check(setup, f'a {sym} {re}', f'[a{sym}=b]', ['base_assign a b'], f'{tr}-from-assign')
+        else:
+            def fwd(il, ir):
+                # operands as they reach the user's impl, and the clones made on the way
+                ls, rs, lg = 'a', 'b', []
+                if il and not bl:
+                    lg.append('cloneA a')
+                    ls = 'ca'
+                if ir and not br:
+                    lg.append(f'{cb} b')
+                    rs = 'cb'
+                return ls, rs, lg
+            if 'Op' in req:
+                for il in (False, True):
+                    for ir in (False, True):
+                        ls, rs, lg = fwd(il, ir)
+                        le = '&a' if il else 'a'
+                        re = '&b' if ir else 'b'
+                        post = ''
+                        body += check(setup, f'{le} {sym} {re}', f'[{ls}{sym}{rs}]', lg + [f'base {ls} {rs}'], f'{tr} {"r" if il else "o"}{"r" if ir else "o"}')
+            else:
+                # only the user's own form exists
+                le = '&a' if bl else 'a'
+                re = '&b' if br else 'b'
+                body += check(setup, f'{le} {sym} {re}', f'[a{sym}b]', ['base a b'], f'{tr} base')
+            if 'OpAssign' in req:
+                if 'Op' in req:
+                    for ir in (False, True):
+                        # *self = <&A as Op<R>>::op(self, rhs): the `&A op R` form
+                        ls, rs, lg = fwd(True, ir)
+                        re = '&b' if ir else 'b'
+                        body += (f'  {{ let mut a: {Ai} = {ctorA("a")}; let b: {Bi} = {ctorB("b")}; take(); a {sym}= {re}; let lg = take(); n += 1; let want = String::from("[{ls}{sym}{rs}]"); let wl: Vec<String> = vec![{", ".join(chr(34) + w + chr(34) + ".to_string()" for w in lg + [f"base {ls} {rs}"])}];\n'
+                                 f'    if a.0 != want {{ println!("{mod} FAIL {tr}Assign {"r" if ir else "o"} value {{:?}} want {{:?}}", a.0, want); }} if lg != wl {{ println!("{mod} FAIL {tr}Assign {"r" if ir else "o"} calls {{:?}} want {{:?}}", lg, wl); }} }}\n')
+                else:
+                    ls = 'a' if bl else 'ca'
+                    lg = [] if bl else ['cloneA a']
+                    re = '&b' if br else 'b'
+                    body += (f'  {{ let mut a: {Ai} = {ctorA("a")}; let b: {Bi} = {ctorB("b")}; take(); a {sym}= {re}; let lg = take(); n += 1; let want = String::from("[{ls}{sym}b]"); let wl: Vec<String> = vec![{", ".join(chr(34) + w + chr(34) + ".to_string()" for w in lg + [f"base {ls} b"])}];\n'
+                             f'    if a.0 != want {{ println!("{mod} FAIL {tr}Assign-only value {{:?}} want {{:?}}", a.0, want); }} if lg != wl {{ println!("{mod} FAIL {tr}Assign-only calls {{:?}} want {{:?}}", lg, wl); }} }}\n')
+        body += f'  println!("{mod} ok {{}}", n); }}\n}}\n'
+        src += body
+        cases.append(dict(mod=mod, item=base.strip().replace('\n', ' '), traits=req, shape=('assign-base' if base_assign else f'base-{"r" if bl else "o"}{"r" if br else "o"}') + ('-self' if rhs_self else '-other'), raw=False))
+    src += 'fn main() { ' + ' '.join(f"{c['mod']}::run();" for c in cases) + ' }\n'
+    return src, cases
+
+
+# ---------------------------------------------------------------- C18: Deref / DerefMut
+C18_PRELUDE = '''#![allow(dead_code, unused_imports, unused_variables, unused_mut, non_snake_case)]
+use derive_ex::{derive_ex, Ex};
+use std::ops::{Deref, DerefMut};
+pub fn same_ty<T: ?Sized>(_: &T, _: &T) {}
+'''
+
+
+def gen_c18_program(seed, start, count):
+    rng = random.Random(seed * 2000029 + start)
+    src = C18_PRELUDE
+    cases = []
+    targets = [('u8', '7u8', '*x = 9u8;', 'x.F == 9u8'), ('String', 'String::from("hi")', 'x.push(\'!\');', 'x.F == "hi!"'),
+               ('Box<[u8]>', 'vec![1u8, 2].into_boxed_slice()', 'x[0] = 5;', 'x.F[0] == 5'),
+               ('Vec<u8>', 'vec![1u8]', 'x.push(2);', 'x.F.len() == 2'), ('(u8, u8)', '(1u8, 2u8)', '(*x).0 = 3;', 'x.F.0 == 3')]
+    for idx in range(start, start + count):
+        mod = f'c{idx}'
+        named = rng.random() < 0.5
+        generic = rng.random() < 0.4
+        ty, init, write, after = rng.choice(targets)
+        fld = 'inner' if named else '0'
+        fty = 'T' if generic else ty
+        g = rng.choice(['<T>', '<T: Clone>', '<T> ']) if generic else ''
+        where = ' where T: Sized' if generic and rng.random() < 0.3 else ''
+        gi = f'<{ty}>' if generic else ''
+        both = rng.random() < 0.7
+        traits = 'Deref, DerefMut' if both else 'Deref'
+        entry = rng.choice(['attr', 'derive'])
+        head = f'#[derive_ex({traits})]' if entry == 'attr' else f'#[derive(Ex)] #[derive_ex({traits})]'
+        if named:
+            decl = f'pub struct X{g}{where} {{ pub inner: {fty} }}'
+            ctor = f'X {{ inner: {init} }}'
+        else:
+            decl = f'pub struct X{g}(pub {fty}){where};'
+            ctor = f'X({init})'
+        body = f'pub mod {mod} {{ use super::*;\n {head} {decl}\n pub fn run() {{ let mut n = 0u32; let mut x: X{gi} = {ctor};\n'
+        body += f'  n += 1; if !std::ptr::eq(&*x, &x.{fld}) {{ println!("{mod} FAIL deref does not return the field itself"); }}\n'
+        body += f'  n += 1; if std::any::type_name::<<X{gi} as Deref>::Target>() != std::any::type_name::<{ty}>() {{ println!("{mod} FAIL Target is {{}}", std::any::type_name::<<X{gi} as Deref>::Target>()); }}\n'
+        body += f'  {{ let t: &<X{gi} as Deref>::Target = &*x; same_ty(t, &x.{fld}); }}\n'
+        if both:
+            body += f'  n += 1; {{ let p1 = &mut *x as *mut {ty}; let p2 = &mut x.{fld} as *mut {ty}; if p1 != p2 {{ println!("{mod} FAIL deref_mut does not return the field itself"); }} }}\n'
+            body += f'  n += 1; {write} if !({after.replace("F", fld)}) {{ println!("{mod} FAIL write through deref_mut did not land in the field"); }}\n'
+        body += f'  println!("{mod} ok {{}}", n); }}\n}}\n'
+        src += body
+        cases.append(dict(mod=mod, item=f'{head} {decl}', traits=traits.split(', '), shape=('named' if named else 'tuple') + ('-generic' if generic else ''), raw=False))
+    src += 'fn main() { ' + ' '.join(f"{c['mod']}::run();" for c in cases) + ' }\n'
+    return src, cases
+
+
+def gen_c18_reject_case(seed, idx):
+    """0- and 2..4-field structs: Deref / DerefMut must be refused by derive_ex itself"""
+    rng = random.Random(seed * 2000039 + idx)
+    nf = rng.choice([0, 0, 2, 2, 3, 4])
+    named = rng.random() < 0.5
+    kind = 'unit' if (nf == 0 and rng.random() < 0.4) else ('named' if named else 'tuple')
+    tys = [rng.choice(['u8', 'String', 'u8']) for _ in range(nf)]
+    traits = rng.choice([['Deref'], ['DerefMut'], ['Deref', 'DerefMut']])
+    if kind == 'unit':
+        decl = 'pub struct X;'
+    elif kind == 'named':
+        decl = 'pub struct X { ' + ', '.join(f'pub f{i}: {t}' for i, t in enumerate(tys)) + ' }'
+    else:
+        decl = 'pub struct X(' + ', '.join('pub ' + t for t in tys) + ');'
+    manual = ''
+    if traits == ['DerefMut']:
+        # the user supplies Deref by hand (DerefMut: Deref)
+        tgt = tys[0] if tys else 'u8'
+        acc = ('&self.f0' if kind == 'named' else '&self.0') if tys else '&0u8'
+        manual = f'impl ::core::ops::Deref for X {{ type Target = {tgt}; fn deref(&self) -> &{tgt} {{ {acc} }} }}\n'
+    src = ('#![allow(dead_code, unused_imports)]\nuse derive_ex::{derive_ex, Ex};\n' + f'#[derive_ex({", ".join(traits)})] {decl}\n{manual}')
+    return dict(id=f'c18r/{seed}/{idx}', src=src, item=f'#[derive_ex({", ".join(traits)})] {decl}', traits=traits,
+                desc=dict(shape=f'{kind}{nf}'), expect_error='supports only single field struct')
+
+
+# ---------------------------------------------------------------- C17: Eq only if every compared component is Eq
+C17_PRELUDE = '''#![allow(dead_code, unused_imports, non_snake_case)]
+use derive_ex::{derive_ex, Ex};
+use ::core::cmp::Ordering;
+#[derive(Clone, Copy, Debug, PartialEq, PartialOrd)] pub struct N(pub f32);          // PartialEq only: not Eq
+#[derive(Clone, Copy, Debug, PartialEq, Eq, PartialOrd, Ord)] pub struct E8(pub u8);  // Eq
+pub fn ke<T>(_: &T) -> u8 { 0 }
+pub fn kn<T>(_: &T) -> f32 { 0.0 }
+pub fn be<T>(_: &T, _: &T) -> bool { true }
+pub fn bo<T>(_: &T, _: &T) -> Ordering { Ordering::Equal }
+'''
+
+
+def gen_c17_case(seed, idx):
+    rng = random.Random(seed * 6000011 + idx)
+    is_enum = rng.random() < 0.4
+    generic = rng.random() < 0.3
+    nf = rng.choice([1, 1, 2, 3])
+    fields = []
+    ok = True
+    for i in range(nf):
+        tyk = rng.choice(['E', 'N', 'N', 'T'] if generic else ['E', 'N', 'N'])
+        ty = {'E': 'E8', 'N': 'N', 'T': 'T'}[tyk]
+        # attribute choice on eq / ord
+        eqa = rng.choice(['', '', 'ignore', 'keyE', 'keyN', 'by'])
+        orda = rng.choice(['', '', '', 'ignore', 'keyE', 'keyN', 'by'])
+        attrs = []
+        if eqa == 'ignore':
+            attrs.append('#[eq(ignore)]')
+        elif eqa == 'keyE':
+            attrs.append('#[eq(key = ke(&$))]')
+        elif eqa == 'keyN':
+            attrs.append('#[eq(key = kn(&$))]')
+        elif eqa == 'by':
+            attrs.append('#[eq(by = be)]')
+        if orda == 'ignore':
+            attrs.append('#[ord(ignore)]')
+        elif orda == 'keyE':
+            attrs.append('#[ord(key = ke(&$))]')
+        elif orda == 'keyN':
+            attrs.append('#[ord(key = kn(&$))]')
+        elif orda == 'by':
+            attrs.append('#[ord(by = bo)]')
+        rng.shuffle(attrs)
+        # reference rule (C17): ignored or compared with `by` => exempt; else the `key` value (eq first, then ord), else the field
+        if eqa == 'ignore' or orda == 'ignore':
+            comp = None
+        elif eqa == 'by':
+            comp = None
+        elif eqa in ('keyE', 'keyN'):
+            comp = eqa[-1]
+        elif orda == 'by':
+            comp = None
+        elif orda in ('keyE', 'keyN'):
+            comp = orda[-1]
+        else:
+            comp = tyk
+        # a generic component is asserted through the generated where-clause `T: Eq`: fine for the generic impl
+        if comp == 'N':
+            ok = False
+        fields.append((' '.join(attrs) + (' ' if attrs else ''), ty))
+    g = '<T>' if generic and any(t == 'T' for _, t in fields) else ''
+    entry = rng.choice(['attr', 'derive'])
+    head = '#[derive_ex(Eq, PartialEq)]' if entry == 'attr' else '#[derive(Ex)] #[derive_ex(Eq, PartialEq)]'
+    named = rng.random() < 0.5
+    if named:
+        body = ' { ' + ', '.join(f'{a}f{i}: {t}' for i, (a, t) in enumerate(fields)) + ' }'
+    else:
+        body = '(' + ', '.join(f'{a}{t}' for a, t in fields) + ')'
+    if is_enum:
+        item = f'{head} pub enum X{g} {{ A, B{body} }}'
+    else:
+        item = f'{head} pub struct X{g}{body}' + ('' if named else ';')
+    return dict(id=f'c17/{seed}/{idx}', src=C17_PRELUDE + item + '\n', item=item, traits=['Eq', 'PartialEq'],
+                expect_ok=ok, desc=dict(shape=('enum' if is_enum else 'struct') + str(nf), generic=bool(g), expect='accept' if ok else 'refuse'))
+
+
+# ---------------------------------------------------------------- C07: clone / clone_from with a call-recording field type
+C07_PRELUDE = '''#![allow(dead_code, unused_imports, unused_variables, unused_mut, non_snake_case)]
+use derive_ex::{derive_ex, Ex};
+use std::cell::RefCell;
+thread_local! { static LOG: RefCell<Vec<String>> = RefCell::new(Vec::new()); }
+pub fn log(s: String) { LOG.with(|l| l.borrow_mut().push(s)); }
+pub fn take() -> Vec<String> { LOG.with(|l| std::mem::take(&mut *l.borrow_mut())) }
+#[derive(Debug, PartialEq)]
+pub struct R(pub u32);
+impl Clone for R {
+    fn clone(&self) -> Self { log(format!("clone {}", self.0)); R(self.0 + 1000) }
+    fn clone_from(&mut self, s: &Self) { log(format!("clone_from {} {}", self.0, s.0)); self.0 = s.0 + 2000; }
+}
+'''
+
+
+def gen_c07_program(seed, start, count):
+    rng = random.Random(seed * 4000037 + start)
+    src = C07_PRELUDE
+    cases = []
+    for idx in range(start, start + count):
+        mod = f'c{idx}'
+        is_enum = rng.random() < 0.6
+        generic = rng.random() < 0.3
+        g, gi = ('<T>', '<R>') if generic else ('', '')
+        fty = 'T' if generic else 'R'
+        vnames = ['A', 'B', 'C', 'D']
+        fnames = ['a', 'b', 'c', 'd']
+        if is_enum:
+            nv = rng.choice([1, 2, 3, 4])
+            kinds = [rng.choice(['unit', 'tuple', 'named']) for _ in range(nv)]
+            nfs = [0 if k == 'unit' else rng.choice([0, 1, 2, 3]) for k in kinds]
+        else:
+            nv = 1
+            kinds = [rng.choice(['unit', 'tuple', 'named'])]
+            nfs = [0 if kinds[0] == 'unit' else rng.choice([0, 1, 2, 3, 4])]
+        if generic and sum(nfs) == 0:
+            generic, g, gi, fty = False, '', '', 'R'
+
+        def vdecl(k, n):
+            if k == 'named':
+                return ' { ' + ', '.join(f'{fnames[i]}: {fty}' for i in range(n)) + ' }'
+            if k == 'tuple':
+                return '(' + ', '.join(fty for _ in range(n)) + ')'
+            return ''
+        if is_enum:
+            decl = f'pub enum X{g} {{ ' + ', '.join(f'{vnames[i]}{vdecl(kinds[i], nfs[i])}' for i in range(nv)) + ' }'
+        else:
+            d = vdecl(kinds[0], nfs[0])
+            decl = f'pub struct X{g}{d}' + ('' if kinds[0] == 'named' else ';')
+        entry = rng.choice(['attr', 'derive'])
+        head = '#[derive_ex(Clone)]' if entry == 'attr' else '#[derive(Ex)] #[derive_ex(Clone)]'
+
+        def ctor(v, vals):
+            path = f'X::{vnames[v]}' if is_enum else 'X'
+            if kinds[v] == 'named':
+                return path + ' { ' + ', '.join(f'{fnames[i]}: R({x})' for i, x in enumerate(vals)) + ' }'
+            if kinds[v] == 'tuple':
+                return path + '(' + ', '.join(f'R({x})' for x in vals) + ')'
+            return path
+        body = f'pub mod {mod} {{ use super::*;\n #[derive(Debug, PartialEq)] {head} {decl}\n pub fn run() {{ let mut n = 0u32;\n'
+        # values: distinguishable per field and per value
+        vals = [(v, [100 * v + 10 * k + i + 1 for i in range(nfs[v])]) for v in range(nv) for k in (0, 1)]
+        for (v, xs) in vals:
+            want = ctor(v, [x + 1000 for x in xs])
+            wl = ', '.join(f'"clone {x}".to_string()' for x in xs)
+            body += f'  {{ let a: X{gi} = {ctor(v, xs)}; take(); let c = a.clone(); let lg = take(); n += 1; let want: X{gi} = {want}; let wl: Vec<String> = vec![{wl}];\n'
+            body += f'    if c != want {{ println!("{mod} FAIL clone value {{:?}} want {{:?}}", c, want); }} if lg != wl {{ println!("{mod} FAIL clone calls {{:?}} want {{:?}}", lg, wl); }} if a != ({ctor(v, xs)}) {{ println!("{mod} FAIL clone changed the source"); }} }}\n'
+        for (va, xa) in vals:
+            for (vb, xb) in vals:
+                if va == vb:
+                    want = ctor(va, [y + 2000 for y in xb])
+                    wl = ', '.join(f'"clone_from {x} {y}".to_string()' for x, y in zip(xa, xb))
+                else:
+                    want = ctor(vb, [y + 1000 for y in xb])
+                    wl = ', '.join(f'"clone {y}".to_string()' for y in xb)
+                body += f'  {{ let mut a: X{gi} = {ctor(va, xa)}; let b: X{gi} = {ctor(vb, xb)}; take(); a.clone_from(&b); let lg = take(); n += 1; let want: X{gi} = {want}; let wl: Vec<String> = vec![{wl}];\n'
+                body += f'    if a != want {{ println!("{mod} FAIL clone_from({va},{vb}) value {{:?}} want {{:?}}", a, want); }} if lg != wl {{ println!("{mod} FAIL clone_from({va},{vb}) calls {{:?}} want {{:?}}", lg, wl); }} if b != ({ctor(vb, xb)}) {{ println!("{mod} FAIL clone_from changed the source"); }} }}\n'
+        body += f'  println!("{mod} ok {{}}", n); }}\n}}\n'
+        src += body
+        cases.append(dict(mod=mod, item=f'{head} {decl}', traits=['Clone'], shape=('enum' if is_enum else 'struct') + str(nv), raw=False))
+    src += 'fn main() { ' + ' '.join(f"{c['mod']}::run();" for c in cases) + ' }\n'
+    return src, cases
+
+
+# ---------------------------------------------------------------- C10: Debug with ignore / transparent against std twins
+def gen_c10_program(seed, start, count):
+    rng = random.Random(seed * 4000043 + start)
+    src = C12_PRELUDE
+    cases = []
+    pool = [('i8', ['0', '-3']), ('bool', ['true']), ('(i8, f32)', ['(1, 2.5)']), ('Option<i8>', ['None', 'Some(7)']),
+            ('String', ['String::from("a b")']), ('f32', ['1.25', '-0.5']), ('Vec<i8>', ['vec![1, 2]'])]
+    for idx in range(start, start + count):
+        mod = f'c{idx}'
+        is_enum = rng.random() < 0.5
+        vnames, fnames = ['A', 'B', 'C'], ['a', 'b', 'c', 'd']
+        nv = rng.choice([1, 2, 3]) if is_enum else 1
+        dvs, svs, vals_d, vals_s = [], [], [], []
+        for v in range(nv):
+            kind = rng.choice(['unit', 'tuple', 'named', 'tuple', 'named'])
+            nf = 0 if kind == 'unit' else rng.choice([0, 1, 2, 3, 4])
+            fs = [rng.choice(pool) for _ in range(nf)]
+            mode = rng.choice(['none', 'ignore', 'ignore', 'transparent'])
+            ign = [mode == 'ignore' and rng.random() < 0.5 for _ in range(nf)]
+            tr = rng.randrange(nf) if (mode == 'transparent' and nf > 0) else None
+            vals = [rng.choice(dom) for _, dom in fs]
+            path = (lambda m: f'{m}::X::{vnames[v]}') if is_enum else (lambda m: f'{m}::X')
+            name = vnames[v] if is_enum else 'X'
+            if kind == 'named':
+                dv = name + ' { ' + ', '.join(('#[debug(ignore)] ' if ign[i] else '#[debug(transparent)] ' if tr == i else '') + ('' if is_enum else 'pub ') + f'{fnames[i]}: {t}' for i, (t, _) in enumerate(fs)) + ' }'
+                sv = name + ' { ' + ', '.join(('' if is_enum else 'pub ') + f'{fnames[i]}: {t}' for i, (t, _) in enumerate(fs) if not ign[i]) + ' }'
+                cd = lambda m: path(m) + ' { ' + ', '.join(f'{fnames[i]}: {x}' for i, x in enumerate(vals)) + ' }'
+                cs = lambda m: path(m) + ' { ' + ', '.join(f'{fnames[i]}: {x}' for i, x in enumerate(vals) if not ign[i]) + ' }'
+            elif kind == 'tuple':
+                dv = name + '(' + ', '.join(('#[debug(ignore)] ' if ign[i] else '#[debug(transparent)] ' if tr == i else '') + ('' if is_enum else 'pub ') + t for i, (t, _) in enumerate(fs)) + ')'
+                sv = name + '(' + ', '.join(('' if is_enum else 'pub ') + t for i, (t, _) in enumerate(fs) if not ign[i]) + ')'
+                cd = lambda m: path(m) + '(' + ', '.join(vals) + ')'
+                cs = lambda m: path(m) + '(' + ', '.join(x for i, x in enumerate(vals) if not ign[i]) + ')'
+            else:
+                dv = sv = name
+                cd = cs = path
+            dvs.append(dv)
+            svs.append(sv)
+            vals_d.append(cd('d'))
+            # a transparent field prints as the field alone
+            if tr is not None:
+                vals_s.append(('field', vals[tr], fs[tr][0]))
+            else:
+                vals_s.append(('twin', cs('s'), None))
+        if is_enum:
+            ditem = '#[derive_ex(Debug)] pub enum X { ' + ', '.join(dvs) + ' }'
+            sitem = '#[derive(Debug)] pub enum X { ' + ', '.join(svs) + ' }'
+        else:
+            semi = '' if dvs[0].rstrip().endswith('}') else ';'
+            ditem = '#[derive_ex(Debug)] pub struct ' + dvs[0] + semi
+            ssemi = '' if svs[0].rstrip().endswith('}') else ';'
+            sitem = '#[derive(Debug)] pub struct ' + svs[0] + ssemi
+        body = f'pub mod {mod} {{ use super::*;\n pub mod d {{ use super::*; {ditem} }}\n pub mod s {{ use super::*; {sitem} }}\n pub fn run() {{ let mut n = 0u32;\n'
+        for dval, (k, sval, fty) in zip(vals_d, vals_s):
+            if k == 'twin':
+                body += f'  n += 1; if fmts(&{dval}) != fmts(&{sval}) {{ println!("{mod} FAIL debug {{:?}} vs std {{:?}}", fmts(&{dval}), fmts(&{sval})); }}\n'
+            else:
+                body += f'  n += 1; {{ let fv: {fty} = {sval}; if fmts(&{dval}) != fmts(&fv) {{ println!("{mod} FAIL transparent {{:?}} vs field {{:?}}", fmts(&{dval}), fmts(&fv)); }} }}\n'
+        body += f'  println!("{mod} ok {{}}", n); }}\n}}\n'
+        src += body
+        cases.append(dict(mod=mod, item=ditem, traits=['Debug'], shape=('enum' if is_enum else 'struct') + str(nv), raw=False))
+    src += 'fn main() { ' + ' '.join(f"{c['mod']}::run();" for c in cases) + ' }\n'
+    return src, cases
+
+
+# ---------------------------------------------------------------- C11: default() values
+C11_PRELUDE = '''#![allow(dead_code, unused_imports, unused_variables, unused_mut, non_snake_case)]
+use derive_ex::{derive_ex, Ex};
+pub const K: i8 = 7; pub const K8: u8 = 9; pub const SK: &str = "sk";
+pub struct Consts; impl Consts { pub const K: i8 = 5; pub const S: &'static str = "cs"; }
+pub mod m { pub const K8: u8 = 4; }
+pub fn f() -> i8 { 11 }
+'''
+# (field type, [(attribute, expected Debug text)])
+C11_FIELDS = [
+    ('i8', [('', '0'), ('#[default(3)]', '3'), ('#[default(-1)]', '-1'), ('#[default(K)]', '7'), ('#[default(Consts::K)]', '5'),
+            ('#[default(f())]', '11'), ('#[default({ 1 + 1 })]', '2'), ('#[default(_)]', '0'), ('#[default]', '0'), ('#[default((K))]', '7'),
+            ('#[default(K as i8)]', '7')]),
+    ('u16', [('', '0'), ('#[default(K8)]', '9'), ('#[default(m::K8)]', '4'), ('#[default(300)]', '300')]),
+    ('String', [('', '""'), ('#[default("s")]', '"s"'), ('#[default(SK)]', '"sk"'), ('#[default(Consts::S)]', '"cs"'),
+                ('#[default(String::from("x"))]', '"x"'), ('#[default(r"raw")]', '"raw"')]),
+    ('bool', [('', 'false'), ('#[default(true)]', 'true')]),
+    ('char', [('#[default(\'c\')]', "'c'")]),
+    ('Option<i8>', [('', 'None'), ('#[default(Some(1))]', 'Some(1)')]),
+]
+
+
+def gen_c11_program(seed, start, count):
+    rng = random.Random(seed * 4000063 + start)
+    src = C11_PRELUDE
+    cases = []
+    for idx in range(start, start + count):
+        mod = f'c{idx}'
+        is_enum = rng.random() < 0.5
+        vnames, fnames = ['A', 'B', 'C'], ['a', 'b', 'c', 'd']
+
+        def mk(kind, nf):
+            fs = [rng.choice(C11_FIELDS) for _ in range(nf)]
+            ch = [rng.choice(opts) for _, opts in fs]
+            if kind == 'named':
+                decl = ' { ' + ', '.join(f'{a} {fnames[i]}: {t}'.strip() for i, ((t, _), (a, _e)) in enumerate(zip(fs, ch))) + ' }'
+                exp = (' { ' + ', '.join(f'{fnames[i]}: {e}' for i, (_a, e) in enumerate(ch)) + ' }') if nf else ''
+            elif kind == 'tuple':
+                decl = '(' + ', '.join(f'{a} {t}'.strip() for (t, _), (a, _e) in zip(fs, ch)) + ')'
+                exp = '(' + ', '.join(e for _a, e in ch) + ')' if nf else ''
+            else:
+                decl, exp = '', ''
+            return decl, exp
+        entry = rng.choice(['attr', 'derive'])
+        head = '#[derive_ex(Default)]' if entry == 'attr' else '#[derive(Ex)] #[derive_ex(Default)]'
+        if is_enum:
+            nv = rng.choice([1, 2, 3])
+            dv = rng.randrange(nv)
+            vs = []
+            want = ''
+            type_level = rng.random() < 0.15
+            for v in range(nv):
+                kind = rng.choice(['unit', 'tuple', 'named'])
+                nf = 0 if kind == 'unit' else rng.choice([0, 1, 2, 3])
+                decl, exp = mk(kind, nf)
+                mark = ''
+                if v == dv and not type_level and (nv > 1 or rng.random() < 0.5):
+                    mark = rng.choice(['#[default] ', '#[default(_)] '])
+                vs.append(f'{mark}{vnames[v]}{decl}')
+                if v == dv:
+                    want = vnames[v] + (exp if kind != 'tuple' or nf else ('' if kind == 'unit' else ''))
+                    if kind == 'tuple' and nf == 0:
+                        want = vnames[v]
+            tl = ''
+            if type_level:
+                # a unit variant chosen by the type-level value wins over everything
+                uv = [i for i, x in enumerate(vs) if x.strip().split('(')[0].split('{')[0].strip() in vnames and '(' not in x and '{' not in x]
+                if uv:
+                    tl = f'#[default(Self::{vnames[uv[0]]})] '
+                    want = vnames[uv[0]]
+                else:
+                    vs[dv] = '#[default] ' + vs[dv] if nv > 1 and not vs[dv].startswith('#[default') else vs[dv]
+            item = f'{head} {tl}#[derive(Debug)] pub enum X {{ ' + ', '.join(vs) + ' }'
+        else:
+            kind = rng.choice(['unit', 'tuple', 'named', 'named'])
+            nf = 0 if kind == 'unit' else rng.choice([0, 1, 2, 3, 4])
+            decl, exp = mk(kind, nf)
+            item = f'{head} #[derive(Debug)] pub struct X{decl}' + ('' if kind == 'named' else ';')
+            want = 'X' + exp
+            if kind == 'tuple' and nf == 0:
+                want = 'X'
+        body = f'pub mod {mod} {{ use super::*;\n {item}\n pub fn run() {{ let got = format!("{{:?}}", <X as Default>::default()); let want = r#"{want}"#;\n'
+        body += f'  if got != want {{ println!("{mod} FAIL default() is {{}} want {{}}", got, want); }} println!("{mod} ok 1"); }}\n}}\n'
+        src += body
+        cases.append(dict(mod=mod, item=item, traits=['Default'], shape='enum' if is_enum else 'struct', raw=False))
+    src += 'fn main() { ' + ' '.join(f"{c['mod']}::run();" for c in cases) + ' }\n'
+    return src, cases
+
+
+def gen_c11_reject_case(seed, idx):
+    rng = random.Random(seed * 4000073 + idx)
+    k = rng.choice(['none', 'several', 'value'])
+    if k == 'none':
+        item = '#[derive_ex(Default)] pub enum X { A, B(u8) }'
+        msg = 'does not exist'
+    elif k == 'several':
+        item = '#[derive_ex(Default)] pub enum X { #[default] A, #[default] B(u8), C }'
+        msg = 'multiple variants'
+    else:
+        item = '#[derive_ex(Default)] pub enum X { A, #[default(X::A)] B(u8) }'
+        msg = 'cannot specify a default value'
+    return dict(id=f'c11r/{seed}/{idx}', src='#![allow(dead_code)]\nuse derive_ex::derive_ex;\n' + item + '\n', item=item,
+                traits=['Default'], desc=dict(kind=k), expect_error=msg)
